@@ -395,7 +395,15 @@ pub fn gen_cell_op(rng: &mut Rng, cfg: &GenCfg, tag: &str) -> Op {
     let sheet = rng.usize(cfg.sheets.max(1));
     let cell = gen_cell(rng, cfg.ncells);
     match rng.weighted(&cfg.w) {
-        0 => Op::SetText { sheet, cell, v: tagged(rng, tag, cfg.alpha) },
+        0 => {
+            let v = match rng.usize(12) {
+                0 => String::new(),
+                1 => "   ".to_string(),
+                2 => format!("{}:{}", tag, "long ".repeat(200 + rng.usize(400))),
+                _ => tagged(rng, tag, cfg.alpha),
+            };
+            Op::SetText { sheet, cell, v }
+        }
         1 => {
             let n = 1 + rng.usize(3);
             Op::SetRich { sheet, cell, parts: (0..n).map(|i| format!("{}.{}:{}", tag, i, gen_text(rng, cfg.alpha, 2))).collect() }
@@ -412,7 +420,16 @@ pub fn gen_cell_op(rng: &mut Rng, cfg: &GenCfg, tag: &str) -> Op {
             Op::SetNum { sheet, cell, v: if v.is_finite() { v } else { 1.5 } }
         }
         3 => Op::SetBool { sheet, cell, v: rng.chance(1, 2) },
-        4 => Op::SetFormula { sheet, cell, f: format!("SUM(A1:A{})", 1 + rng.below(5)), result: format!("{}", rng.below(100)) },
+        4 => {
+            let f = match rng.usize(5) {
+                0 => format!("A1&\"<{}>\"&\" & \"", rng.below(9)),
+                1 => format!("IF(A1>{},\"yes\",\"no\")", rng.below(9)),
+                2 => format!("'{}'!A1+1", "Sheet1"),
+                _ => format!("SUM(A1:A{})", 1 + rng.below(5)),
+            };
+            let result = if f.starts_with("SUM") || f.contains("+1") { format!("{}", rng.below(100)) } else { format!("r<{}>&", rng.below(9)) };
+            Op::SetFormula { sheet, cell, f, result }
+        }
         5 => {
             if rng.chance(1, 2) {
                 Op::RemoveCell { sheet, cell }
@@ -435,7 +452,11 @@ pub fn gen_cell_op(rng: &mut Rng, cfg: &GenCfg, tag: &str) -> Op {
         7 => Op::Hyperlink {
             sheet,
             cell,
-            url: format!("https://example.com/{}/{}", tag, rng.below(1000)),
+            url: match rng.usize(4) {
+                0 => format!("https://example.com/{}/{}#frag ment", tag, rng.below(1000)),
+                1 => format!("file:///C:/some dir/{} file.xlsx", rng.below(100)),
+                _ => format!("https://example.com/{}/{}", tag, rng.below(1000)),
+            },
             location: false,
             tooltip: String::new(),
         },
